@@ -40,17 +40,36 @@ def problems():
     return P
 
 
+def ev_value(c, t):
+    """one event component at time t.  `c` is a number (g = t - c) or a tuple: ("q", a, b): (t - a)*(t - b);
+    ("k", c, kappa): (t - c)*(1 + kappa*((t - c)*(t - c))) — the operations, in this order, are those of EvKind.eval in the Lean driver"""
+    if isinstance(c, tuple):
+        if c[0] == "q":
+            return (t - c[1]) * (t - c[2])
+        if c[0] == "k":
+            return (t - c[1]) * (1.0 + c[2] * ((t - c[1]) * (t - c[1])))
+        raise ValueError(c)
+    return t - c
+
+
 def make_events(specs):
-    """specs: list of (c, direction, terminal) — event functions g_i(t, y) = t - c_i"""
+    """specs: list of (c, direction, terminal) — event functions g_i(t, y) = t - c_i, or a nonlinear function of t (see ev_value)"""
     if not specs:
         return None
-    cs = np.array([s[0] for s in specs], dtype=float)
     dirs = np.array([s[1] for s in specs], dtype=float)
     term = np.array([bool(s[2]) for s in specs])
+    if not any(isinstance(s[0], tuple) for s in specs):
+        cs = np.array([s[0] for s in specs], dtype=float)
 
-    def ev(t, y):
-        return t - cs, term, dirs
-    return ev
+        def ev(t, y):
+            return t - cs, term, dirs
+        return ev
+    kinds = [s[0] if isinstance(s[0], tuple) else float(s[0]) for s in specs]
+
+    def ev_nl(t, y):
+        tt = float(t)
+        return np.array([ev_value(c, tt) for c in kinds], dtype=float), term, dirs
+    return ev_nl
 
 
 def run_rodas(dae, y0, tspan, optkw, specs=()):
@@ -80,7 +99,8 @@ def protocol_line(tspan, optkw, specs, trace):
               "1" if o["fix_h"] else "0", f2h(o["event_duration"])]
     parts += ["ev", str(len(specs))]
     for c, d, tm in specs:
-        parts += [f2h(c), str(int(d)), "1" if tm else "0"]
+        ctok = (c[0] + ":" + f2h(c[1]) + ":" + f2h(c[2])) if isinstance(c, tuple) else f2h(c)
+        parts += [ctok, str(int(d)), "1" if tm else "0"]
     parts += ["script", str(len(trace))]
     for r in trace:
         parts += [f2h(r["err"]), f2h(r["fac0"])]
